@@ -244,10 +244,13 @@ TAG_DOCS = [
 
 
 TAG_FAMS = [("{% field %}", "{% /field %}"), ("{% t a=1 %}", "{% /t %}"), ("<!-- start -->", "<!-- /start -->"), ("{# c #}", "{# /c #}"),
-            ("{{ v }}", "{{ /v }}"), ("<!-- x:y k=\"v w\" -->", "<!-- /x:y -->")]
+            ("{{ v }}", "{{ /v }}"), ("<!-- x:y k=\"v w\" -->", "<!-- /x:y -->"),
+            # closers that are not spelled with a slash
+            ("{% for x in items %}", "{% endfor %}"), ("{% if a %}", "{% endif %}"), ("{# begin #}", "{# end #}")]
 TAG_BODIES = [
     ("list", "- item 1\n- item 2"), ("list", "* x\n* y\n* z"), ("list", "+ a\n+ b"), ("list", "1. one\n2. two"), ("list", "3) c\n4) d"),
-    ("list", "- a\n  - nested\n- b"), ("list", "- a long item that will need to be wrapped at narrow widths for sure\n- b"),
+    ("list", "- a\n  - nested\n- b"), ("list", "- a\n  - b\n    - c"), ("list", "1. a\n   - b\n     - c\n       - d"), ("list", "- a\n\n  - b\n\n    - c"),
+    ("list", "- a long item that will need to be wrapped at narrow widths for sure\n- b"),
     ("table", "| a | b |\n|---|---|\n| 1 | 2 |"), ("table", "| a | b\n|---|---\n| 1 | 2"), ("table", "| a | b |\n|:--|--:|\n| 1 | 2 |\n| 3 | 4"),
     ("table", "|a|b|\n|-|-|\n|1|2|"), ("para", "Some prose that is long enough to be wrapped at narrow widths, really it is long enough."),
 ]
@@ -258,8 +261,9 @@ def gen_tag_docs(ctx: Ctx):
     docs = [(d, ("list" if re.search(r"^(- |\* |\d+\. )", d, re.M) else "table" if "|---|" in d else "para")) for d in TAG_DOCS]
     for (o, c) in TAG_FAMS:
         for kind, body in TAG_BODIES:
-            for gap in ("\n", "\n\n"):
-                core = o + gap + body + gap + c + "\n"
+            for gap, trail in (("\n", ""), ("\n\n", ""), ("\n", " "), ("\n", "\t"), ("\n\n", "  ")):
+                # `trail`: blanks after the tag on its line (the line is still a tag alone on its line)
+                core = o + trail + gap + body + gap + c + trail + "\n"
                 for ind in ("", "  ", "    "):
                     for ctxt in ("", "Intro text.\n\n"):
                         doc = ctxt + core + ("\nOutro.\n" if ctxt else "")
